@@ -57,6 +57,7 @@ func vReport(t *testing.T, rn *vRunner, res *vResult, prop string) {
 		switch {
 		case strings.HasPrefix(v, "[excl]") && prop == "C14",
 			strings.HasPrefix(v, "[inst]"),
+			strings.HasPrefix(v, "[crash]"),
 			strings.HasPrefix(v, "[stuck]") && prop == "C15":
 			mine = append(mine, v)
 		default:
